@@ -1339,3 +1339,30 @@ package sdf
 //@   ensures [offset-surface-through-nominal-base-radius] isnil(err) ==> r.r0 + round*(1 + r.n.Y)/r.n.X == r0
 //@   ensures [offset-surface-through-nominal-top-radius] isnil(err) ==> r.r1 + round*(1 - r.n.Y)/r.n.X == r1
 //@ end
+
+//-----------------------------------------------------------------------------
+// C02: the evaluation cache returns the wrapped shape's own values for every
+// query history. Data-structure invariant: every cached entry is the wrapped
+// shape's value at its key.
+
+//@ func Cache2D
+//@   property C02
+//@   id invariant-established
+//@   forall k v2.Vec
+//@   ensures [fresh-cache-is-empty] !maphas(r.cache, k)
+//@   ensures [wraps-the-operand] r.sdf == sdf
+//@ end
+
+//@ func CacheSDF2.Evaluate
+//@   property C02
+//@   id returns-wrapped-values
+//@   requires forall k v2.Vec :: maphas(s.cache, k) ==> mapval(s.cache, k) == s.sdf.Evaluate(k)
+//@   ensures [value-of-wrapped-shape] r == s.sdf.Evaluate(p)
+//@   ensures [invariant-preserved] forall k v2.Vec :: maphas(s.cache, k) ==> mapval(s.cache, k) == s.sdf.Evaluate(k)
+//@ end
+
+//@ func CacheSDF2.BoundingBox
+//@   property C02
+//@   id returns-wrapped-box
+//@   ensures [box-of-wrapped-shape] r == s.sdf.BoundingBox()
+//@ end
